@@ -1,10 +1,12 @@
 (* Properties_C01.v — encode-then-decode returns the same value.
    Model: coq/Rt/{Der,Uper,Oer}.v; tied to the C by checks/c01.py.
-   Proved here for DER/BER over the whole first-milestone algebra; the UPER and
-   OER round trips of the model and the XER syntaxes are covered by the tie only
-   (see DESIGN.md, C01: partial). *)
+   Proved here for DER/BER, unaligned PER (both the X.691 reading and the reading
+   that mirrors the C, including 16K fragmentation) and OER over the whole
+   first-milestone algebra; the XER syntaxes and the types outside the algebra
+   are covered by the tie only (see DESIGN.md, C01: partial). *)
 From Coq Require Import ZArith List Bool.
-From A1 Require Import Base.Bytes Leaf.BerTL Rt.Types Rt.Comb Rt.Der Rt.DerProofs.
+From A1 Require Import Base.Bytes Leaf.BerTL Rt.Types Rt.Comb Rt.Der Rt.DerProofs
+  Rt.Uper Rt.UperProofs Rt.Oer Rt.OerProofs Rt.OerTotal.
 Import ListNotations.
 Local Open Scope Z_scope.
 
@@ -33,3 +35,38 @@ Example C01_example :
   wf_ty t = true /\ wt t v = true /\ not_opt t = true /\
   ber_decode t (match der t v with Some bs => bs | None => [] end) = Some (v, 24).
 Proof. vm_compute. repeat split; reflexivity. Qed.
+
+(* -- unaligned PER, for both readings of the model (std = true: X.691;
+      std = false: what the C writes) -- *)
+Theorem C01_uper_roundtrip_in_stream : forall std t v bits rest,
+  wf_ty_uper t = true -> wt_uper std t v = true -> uper std t v = Some bits ->
+  uper_dec std t (bits ++ rest) = Some (v, rest).
+Proof. exact uper_roundtrip_in_stream. Qed.
+Print Assumptions C01_uper_roundtrip_in_stream.
+
+Theorem C01_uper_roundtrip : forall std t v bytes,
+  wf_ty_uper t = true -> wt_uper std t v = true -> uper_encode std t v = Some bytes ->
+  uper_decode std t bytes = Some (v, zlen bytes) /\ 1 <= zlen bytes.
+Proof. exact uper_decode_roundtrip. Qed.
+Print Assumptions C01_uper_roundtrip.
+
+(* -- OER -- *)
+Theorem C01_oer_roundtrip_in_stream : forall t v bs rest,
+  wf_ty_oer t = true -> not_opt t = true -> wt_oer t v = true -> oer t v = Some bs ->
+  oer_dec t (bs ++ rest) = Some (v, rest).
+Proof. exact oer_roundtrip_in_stream. Qed.
+Print Assumptions C01_oer_roundtrip_in_stream.
+
+Theorem C01_oer_roundtrip : forall t v bs,
+  wf_ty_oer t = true -> not_opt t = true -> wt_oer t v = true -> oer t v = Some bs ->
+  oer_decode t bs = Some (v, zlen bs).
+Proof. exact oer_decode_roundtrip. Qed.
+Print Assumptions C01_oer_roundtrip.
+
+(* "encoding ... succeeds" for OER: every well-typed value inside its constraints is encodable *)
+Theorem C01_oer_encode_decode : forall t v,
+  wf_ty_oer t = true -> not_opt t = true -> wt_oer t v = true -> oer_in t v = true ->
+  exists bs, oer t v = Some bs /\ oer_decode t bs = Some (v, zlen bs) /\
+             forall rest, oer_dec t (bs ++ rest) = Some (v, rest).
+Proof. exact oer_encode_decode. Qed.
+Print Assumptions C01_oer_encode_decode.
